@@ -1,10 +1,48 @@
 import GB.Base.Proto
+import GB.C01.Driver
+import GB.C02.Driver
+import GB.C03.Driver
+import GB.C04.Driver
+import GB.C05.Driver
+import GB.C06.Driver
+import GB.C07.Driver
+import GB.C08.Driver
+import GB.C09.Driver
+import GB.C10.Driver
+import GB.C11.Driver
 import GB.C12.Driver
+import GB.C13.Driver
+import GB.C14.Driver
+import GB.C15.Driver
+import GB.C16.Driver
+import GB.C17.Driver
+import GB.C18.Driver
+import GB.C19.Driver
+import GB.C20.Driver
 
 open GB GB.Proto
 
 def handlerFor : String → Option Handler
+  | "c01" => some GB.C01.handle
+  | "c02" => some GB.C02.handle
+  | "c03" => some GB.C03.handle
+  | "c04" => some GB.C04.handle
+  | "c05" => some GB.C05.handle
+  | "c06" => some GB.C06.handle
+  | "c07" => some GB.C07.handle
+  | "c08" => some GB.C08.handle
+  | "c09" => some GB.C09.handle
+  | "c10" => some GB.C10.handle
+  | "c11" => some GB.C11.handle
   | "c12" => some GB.C12.handle
+  | "c13" => some GB.C13.handle
+  | "c14" => some GB.C14.handle
+  | "c15" => some GB.C15.handle
+  | "c16" => some GB.C16.handle
+  | "c17" => some GB.C17.handle
+  | "c18" => some GB.C18.handle
+  | "c19" => some GB.C19.handle
+  | "c20" => some GB.C20.handle
   | _ => none
 
 partial def loop (h : IO.FS.Stream) (out : IO.FS.Stream) (f : Handler) : IO Unit := do
